@@ -432,6 +432,18 @@ func valBindings(x interface{}) (m map[string]*val.Val, fail string) {
 	return m, ""
 }
 
+func hasTag(tags []string, t string) bool {
+	for _, x := range tags {
+		if x == t {
+			return true
+		}
+	}
+	return false
+}
+
+// envcheckExtras: further oracle cases found while running envcheckCase (a case carries one oracle)
+var envcheckExtras []Case
+
 func envcheckCase(r *rand.Rand, a, b envForm, tags []string) Case {
 	if guardBegin("compile against " + a.human + "  ||  invoke with " + b.human) {
 		return crashCase("compile against " + a.human + "  ||  invoke with " + b.human)
@@ -451,6 +463,22 @@ func envcheckCase(r *rand.Rand, a, b envForm, tags []string) Case {
 	var terms []envTerm
 	if tfail == "" {
 		src, terms = envProgram(r, tenv)
+	}
+	// a quarter of the programs return an object literal of the (untraced) terms, so that every
+	// variable flows into the result without passing through a function
+	objResult := false
+	if len(terms) > 0 && r.Intn(4) == 0 {
+		objResult = true
+		fs := []string{}
+		for i, t := range terms {
+			e := t.name
+			if t.field != "" {
+				e += "." + t.field
+			}
+			fs = append(fs, fmt.Sprintf("p%d: %s", i, e))
+		}
+		src = "k2(" + src + ", {" + strings.Join(fs, ", ") + "})"
+		c.Tags = append(c.Tags, "program:object-result")
 	}
 	c.Human = src + "  ||  " + c.Human
 
@@ -600,9 +628,18 @@ func envcheckCase(r *rand.Rand, a, b envForm, tags []string) Case {
 		oracle("envcheck-accepts-mismatch", fmt.Sprintf("accepted although missing=%v mismatched=%v", missing, mismatched))
 	case rerr != nil && equal:
 		oracle("envcheck-rejects-equal", "rejected although every compile-time name is bound to a value of an equal type: "+rerr.Error())
+	case rerr != nil && hasTag(tags, "constructed:equal"):
+		oracle("envcheck-rejects-equal", "rejected although the run-time data realises the very declaration the expression was compiled against (equal types by construction): "+rerr.Error())
 	}
 	if rerr != nil && len(trace) > 0 {
 		oracle("envcheck-evaluated-on-reject", fmt.Sprintf("%d host calls before the rejection %q", len(trace), rerr.Error()))
+	}
+	if rerr == nil {
+		// whatever was accepted: the value produced is well formed, no absent component
+		if wf := safely(func() string { return wfVal(res, nil, "result") }); wf != "" {
+			envcheckExtras = append(envcheckExtras, Case{Human: "result of " + c.Human, Want: "ill-formed", Tags: []string{"oracle:envcheck-result-ill-formed"},
+				OracleID: "envcheck-result-ill-formed", Oracle: "the environment was accepted and the value produced is ill formed: " + wf})
+		}
 	}
 	if rerr == nil && equal && len(terms) > 0 {
 		// evaluates normally: every term traced once, the result is the last term's value
@@ -612,10 +649,28 @@ func envcheckCase(r *rand.Rand, a, b envForm, tags []string) Case {
 				ntr++
 			}
 		}
-		last := terms[len(terms)-1]
-		want := venv[last.name]
-		if last.field != "" && want != nil && want.Type.Kind == types.KObj {
-			want, _ = want.Obj().Get(last.field)
+		termVal := func(t envTerm) *val.Val {
+			w := venv[t.name]
+			if t.field != "" && w != nil && w.Type.Kind == types.KObj {
+				w, _ = w.Obj().Get(t.field)
+			}
+			return w
+		}
+		want := termVal(terms[len(terms)-1])
+		if objResult && res != nil && res.Type != nil && res.Type.Kind == types.KObj {
+			// compare field by field with the bindings; the last one through the common path below
+			for i, t := range terms[:len(terms)-1] {
+				got, _ := res.Obj().Get(fmt.Sprintf("p%d", i))
+				w := termVal(t)
+				if got == nil || w == nil || safely(func() string { return encVal(got) }) != safely(func() string { return encVal(w) }) {
+					if !hostKeysCoincide(reflect.ValueOf(b.x), 0) {
+						oracle("envcheck-wrong-result", fmt.Sprintf("field p%d of the result is %s, the environment binds %s", i, got, w))
+					}
+				}
+			}
+			res, _ = res.Obj().Get(fmt.Sprintf("p%d", len(terms)-1))
+		} else if objResult {
+			res = nil
 		}
 		switch {
 		case ntr != len(terms):
@@ -703,8 +758,16 @@ func genEnvcheckCases(r *rand.Rand, n int, thorough bool) []Case {
 		if nilFields {
 			tags = append(tags, "nil-in-untagged-fields")
 		}
+		if mut == "same" && !nilFields && formA != "map" && formB != "map" {
+			// one declaration realised twice (struct forms keep the maybe tags; nil only in
+			// fields tagged maybe): the bindings have equal types BY CONSTRUCTION, whatever the
+			// reflection layer makes of the two Go values
+			tags = append(tags, "constructed:equal")
+		}
 		out = append(out, envcheckCase(r, a, b, tags))
 	}
+	out = append(out, envcheckExtras...)
+	envcheckExtras = nil
 	return out
 }
 
@@ -740,9 +803,41 @@ func rawEnvCase(r *rand.Rand) Case {
 		venv.Put("extra", val.Num(1))
 		descB = append(descB, "extra: num")
 	}
+	// a compile-time type that is a DAG: both components are ONE *types.Type; the run-time value
+	// agrees on the first and may differ on the second
+	if r.Intn(3) == 0 {
+		sub := tg.gen(2)
+		if sub.depth() == 0 {
+			sub = tObj(TF{"x", sub}, TF{"y", tNum})
+		}
+		other := sub
+		if r.Intn(2) == 0 {
+			other = tg.mutate(sub)
+		}
+		ta := tObj(TF{"from", sub}, TF{"to", sub})
+		tb := tObj(TF{"from", sub}, TF{"to", other})
+		if buildable(ta, tb) {
+			if vb := safeGen(vg, tb); vb != nil {
+				tenv.Put("sh", ta.buildShared(map[*T]*types.Type{}))
+				venv.Put("sh", vb)
+				descA = append(descA, "sh (shared components): "+ta.String())
+				descB = append(descB, "sh: "+tb.String())
+				mut += "+shared"
+			}
+		}
+	}
 	a := envForm{tenv, "*types.Env{" + strings.Join(descA, ", ") + "}"}
 	b := envForm{venv, "*val.Env{" + strings.Join(descB, ", ") + "}"}
 	return envcheckCase(r, a, b, []string{"raw-env", "mutation:" + mut})
+}
+
+func safeGen(vg *valGen, t *T) (v *val.Val) {
+	defer func() {
+		if recover() != nil {
+			v = nil
+		}
+	}()
+	return vg.gen(t, false)
 }
 
 // hostKeysCoincide: does the host value contain a Go map two of whose keys convert to the same
